@@ -37,7 +37,13 @@ buf = io.StringIO()
 try:
     with contextlib.redirect_stdout(buf):
         if call[0] == 'sv':
-            V = getattr(jsonschema, call[2]) if not call[2].startswith('ext:') else jsonschema.validators.extend(getattr(jsonschema, call[2][4:]), {})
+            if call[2].startswith('ext:'):
+                V = jsonschema.validators.extend(getattr(jsonschema, call[2][4:]), {})
+            elif call[2].startswith('sub:'):
+                _B = getattr(jsonschema, call[2][4:])
+                V = type('HouseRules', (_B,), dict(META_SCHEMA=dict(_B.META_SCHEMA, required=['$comment'])))
+            else:
+                V = getattr(jsonschema, call[2])
             r = U.schema_valid(call[1], V, call[3])
         else:
             r = U.valid_against_schema(call[1], call[2], call[3])
@@ -73,6 +79,13 @@ _EXT = {}
 
 def validator_of(jsonschema, name):
     """a validator class by name; 'ext:<name>' = a class derived from it with jsonschema.validators.extend (one object per process)"""
+    if name.startswith('sub:'):
+        # a class-statement subclass with a stricter meta-schema of its own (house rules: every schema must carry a '$comment'): attribute look-ups on
+        # it fall through to the parent class
+        if name not in _EXT:
+            B = getattr(jsonschema, name[4:])
+            _EXT[name] = type('HouseRules', (B,), dict(META_SCHEMA=dict(B.META_SCHEMA, required=['$comment'])))
+        return _EXT[name]
     if not name.startswith('ext:'):
         return getattr(jsonschema, name)
     if name not in _EXT:
